@@ -254,9 +254,27 @@ def _suite():
                         ["update", 4, ch(FACTS_T[4], size=0, tags=[])], ["togglemarked"]]
     refilter = [["setorder", "size"], ["add", 2], ["add", 1], ["add", 3], ["setfilter", flt("type", "dns", True)],
                 ["update", 2, ch(FACTS_T[2], size=3)], ["setrev", True], ["setfilter", flt("all")]]
-    return [hide_change_show, order_roundtrip, marked_roundtrip, refilter]
+    # one directed history per clause antecedent, so that no witness depends on what the seed happens to sample
+    f2, f3 = FACTS_T[2], FACTS_T[3]
+    basics = [
+        [["add", 1], ["add", 3], ["add", 4], ["setorder", "size"], ["update", 1, ch(f1, size=3)]],          # moved
+        [["add", 1], ["add", 4], ["add", 2], ["add", 3], ["remove", 1]],                                     # tie, types
+        [["setfilter", flt("tag", "a")], ["add", 1], ["add", 2], ["update", 1, ch(f1, tags=[])],
+         ["update", 1, ch(f1, tags=["a"])]],                                                                   # hid, showed
+        [["add", 2], ["add", 1], ["remove", 2]],                                                               # first left
+        [["add", 3], ["add", 1], ["setrev", True], ["remove", 3]],                                             # first, reversed
+        [["add", 2], ["add", 1], ["setrev", True], ["remove", 2]],                                             # last, reversed
+        [["add", 3], ["add", 1], ["setrev", True], ["setfilter", flt("tag", "a")], ["update", 3, ch(f3, tags=[])]],
+        [["add", 3], ["togglemarked"], ["togglemarked"], ["add", 1], ["clearunmarked"], ["add", 2], ["clear"]],
+    ]
+    return [hide_change_show, order_roundtrip, marked_roundtrip, refilter] + basics
 
 
+# narrow instance for long focus histories: two flows that both carry the tag, direction / filter / membership calls only
+POOL_F = {1: "http", 2: "tcp"}
+FACTS_F = {1: facts("http", 2, size=1), 2: facts("tcp", 1, size=1)}
+ALL_ACTS = ("add", "mark", "tag", "key", "touch", "remove", "setfilter", "togglemarked", "clearunmarked", "setorder",
+            "setrev", "clear")
 FILTERS = (flt("all"), flt("tag", "a"), flt("tag", "a", True), flt("type", "http", True), flt("marked"))
 
 
@@ -267,7 +285,7 @@ class Check(core.PropertyCheck):
     MON = "Mon_View"
     REQUIRED_WITNESSES = ("add_shown", "add_hidden", "update_moved", "update_hid", "update_showed", "removed_focused",
                           "marked_only", "reversed", "ordered_by_mutable_key", "filter_hides", "clear", "clear_unmarked",
-                          "tie", "focus_moved", "mixed_types")
+                          "tie", "focus_moved", "mixed_types", "focused_first_left", "focused_first_left_reversed", "focused_last_left_reversed")
     REQUIRED_ACTIONS = ("Add", "RemoveFlow", "SetFilter", "ToggleMarked",
                         "ClearUnmarked", "SetOrder", "SetRev", "Clear")
     ASSUMPTIONS = (
@@ -283,6 +301,11 @@ class Check(core.PropertyCheck):
         return {}
 
     def _consts(self, size):
+        if size == "focus":
+            c, _, _ = self._consts("small")
+            return dict(c, Flows=frozenset({1, 2}), InitFacts=tuple(_h(FACTS_F[i]) for i in (1, 2)),
+                        OrdersUsed=frozenset({"time"}), Filters=frozenset(_h(f) for f in FILTERS[:2]),
+                        Acts=frozenset({"add", "tag", "remove", "setfilter", "setrev"}), MaxOps=5), POOL_F, FACTS_F
         pool, fx = (POOL_Q, FACTS_Q) if size == "small" else (POOL_T, FACTS_T)
         n = len(pool)
         doms = {"size": {t: frozenset({0, 1, 2}) for t in ("http", "tcp", "udp", "dns")},
@@ -292,7 +315,7 @@ class Check(core.PropertyCheck):
                 "KeyDom": _h({o: doms[o] for o in mut}), "MutOrders": frozenset(mut),
                 "OrdersUsed": frozenset(("time",) + mut),
                 "Filters": frozenset(_h(f) for f in (FILTERS[:3] if size == "small" else FILTERS)),
-                "MarkedOnAdd": False, "FreshKeys": False, "MaxOps": 3}, pool, fx
+                "Acts": frozenset(ALL_ACTS), "MarkedOnAdd": False, "FreshKeys": False, "MaxOps": 3}, pool, fx
 
     def model_constants(self, tier):
         return self._consts("small")[0]
@@ -300,10 +323,18 @@ class Check(core.PropertyCheck):
     def model_runs(self, ctx):
         c, _, _ = self._consts("small")
         small = ctx.model_check(self.MODEL, dict(c, MaxOps=2 if ctx.quick else 3), dump=True, timeout=1200)
+        # second dumped instance: few kinds of calls, histories of five (where the focus ends up after the focused flow
+        # leaves the list depends on direction, position and focus_follow: needs add, add, reverse, filter, leave)
+        fc, _, _ = self._consts("focus")
+        req, self.REQUIRED_ACTIONS = self.REQUIRED_ACTIONS, ("Add", "RemoveFlow", "SetFilter", "SetRev")
+        try:
+            focus = ctx.model_check(self.MODEL, fc, dump=True, timeout=1200, tag="_focus")
+        finally:
+            self.REQUIRED_ACTIONS = req
         if ctx.quick:
-            return [small]
+            return [small, focus]
         big, _, _ = self._consts("big")
-        return [small, ctx.model_check(self.MODEL, dict(big, MaxOps=3), dump=False, tag="_big")]
+        return [small, focus, ctx.model_check(self.MODEL, dict(big, MaxOps=3), dump=False, tag="_big")]
 
     # -- behaviours -> scenarios
     @staticmethod
@@ -339,8 +370,12 @@ class Check(core.PropertyCheck):
         c, pool, fx = self._consts("small")
         g = models[0].graph
         behs = [(b, pool, fx, "model") for b in g.edge_cover(ctx.rng, max_len=12, tail=3)]
+        fb = [(b, POOL_F, FACTS_F, "model") for b in models[1].graph.edge_cover(ctx.rng, max_len=12, tail=2)]
+        if len(fb) > (1000 if ctx.quick else 6000):
+            fb = ctx.rng.sample(fb, 1000 if ctx.quick else 6000)
         if len(behs) > 8000:  # thorough: the edge cover of the MaxOps=3 graph is sampled
             behs = ctx.rng.sample(behs, 8000)
+        behs += fb
         big, bpool, bfx = self._consts("big")
         sims, _ = ctx.simulate(self.MODEL, dict(big, MaxOps=8 if ctx.quick else 12), num=400 if ctx.quick else 4000,
                                depth=10 if ctx.quick else 14, timeout=1200)
@@ -356,7 +391,8 @@ class Check(core.PropertyCheck):
                                      "facts": {str(k): v for k, v in FACTS_T.items()}, "ff": ff, "via_options": ff,
                                      "ops": ops}, source="suite")
         for i in range(300 if ctx.quick else 4000):
-            yield core.Scenario(self._pattern(rng) if i % 4 == 3 else self._random(rng), source="random")
+            yield core.Scenario(self._pattern(rng) if i % 4 == 3 else self._focus_pattern(rng) if i % 4 == 1
+                                else self._random(rng), source="random")
 
     # -- random driver: bigger pools, every flow variant, all four orders, longer histories
     def _random(self, rng):
@@ -466,6 +502,42 @@ class Check(core.PropertyCheck):
             ops += [["setfilter", flt("type", t, True)], ["update", v, ch(**{order: new})], ["setfilter", flt("all")]]
         ops += sc["ops"][: rng.randint(0, 3)]
         return {"pool": sc["pool"], "facts": init, "ff": sc["ff"], "via_options": sc["via_options"], "ops": ops}
+
+    def _focus_pattern(self, rng):
+        """Random member of the family 'the focused flow sits at one end of the list, in either direction, and leaves'."""
+        sc = self._random(rng)
+        pool = {int(k): v for k, v in sc["pool"].items()}
+        fx = {int(k): {"marked": True, "tags": ["a"], "ftype": v["ftype"], "key": dict(v["key"])} for k, v in sc["facts"].items()}
+        ids = list(pool)
+        rng.shuffle(ids)
+        ids = ids[: rng.randint(2, min(5, len(ids)))]
+        ff = rng.random() < 0.5
+        v = ids[-1] if ff else ids[0]          # the flow that holds the focus once all are added
+        order = rng.choice(["time", "time", "size"])
+        for i in ids:
+            fx[i]["key"][order] = rng.choice([1, 2])
+        fx[v]["key"][order] = rng.choice([0, 3])  # first or last in the underlying list
+        init = {str(k): {"marked": x["marked"], "tags": list(x["tags"]), "ftype": x["ftype"], "key": dict(x["key"])} for k, x in fx.items()}
+        ops = [["add", i] for i in ids]
+        pre = [["setrev", rng.random() < 0.7]]
+        if order != "time":
+            pre.append(["setorder", order])
+        how = rng.choice(["remove", "tag", "marked"])
+        if how == "tag":
+            pre.append(["setfilter", flt("tag", "a")])
+        elif how == "marked":
+            pre.append(["setfilter", flt("marked")])
+        for o in pre:
+            ops.insert(rng.randint(0, len(ops)), o)
+        gone = dict(init[str(v)])
+        if how == "remove":
+            ops.append(["remove", v])
+        elif how == "tag":
+            ops.append(["update", v, dict(gone, tags=[])])
+        else:
+            ops.append(["update", v, dict(gone, marked=False)])
+        ops += [o for o in sc["ops"] if o[0] in ("remove", "setrev", "add")][: rng.randint(0, 3)]
+        return {"pool": sc["pool"], "facts": init, "ff": ff, "via_options": sc["via_options"], "ops": ops}
 
     def execute(self, sc):
         return Run(sc).go()
